@@ -31,6 +31,11 @@ type Case struct {
 	// NoHashes (API tier): the stored partial revision carries no statement checksums (a row written before the
 	// partial_hashes column existed). The run must not crash: it resumes, or it refuses without executing anything.
 	NoHashes bool `json:"no_hashes,omitempty"`
+	// OutOfOrder (CLI tier): the file is added below an already applied one and its first attempt runs with
+	// --exec-order non-linear, so its partial revision is not the newest one. 1: the next run is non-linear too (same
+	// expectations as for the newest file); 2: the next run has the default linear order and finds a newer pending file as
+	// well: it must be refused whatever the edit, with nothing executed and the revisions as they were.
+	OutOfOrder int `json:"out_of_order,omitempty"`
 }
 
 func stmtText(id int) string { return fmt.Sprintf("INSERT INTO journal (id) VALUES (%d);", id) }
@@ -264,12 +269,26 @@ func checkCLI(c Case) error {
 	// In the CLI tier the statement at index K of the old file is a really failing statement.
 	old := render(c.Old[:c.K], 0) + failingStmt + "\n" + render(c.Old[c.K+1:], 0)
 	sb.WriteFile("m/0_init.sql", "CREATE TABLE journal (id integer);\n")
-	sb.WriteFile("m/1_a.sql", old)
 	url := "sqlite://" + sb.Path("db.sqlite")
+	var order1, order2 []string
+	if c.OutOfOrder != 0 {
+		sb.WriteFile("m/2_z.sql", "CREATE TABLE z (id integer);\n")
+		if r := sb.Run("migrate", "hash", "--dir", "file://m"); r.Code != 0 {
+			return fmt.Errorf("harness: %v", r)
+		}
+		if r := sb.Run("migrate", "apply", "--dir", "file://m", "--url", url, "--tx-mode", "none"); r.Code != 0 {
+			return fmt.Errorf("harness: %v", r)
+		}
+		order1 = []string{"--exec-order", "non-linear"}
+		if c.OutOfOrder == 1 {
+			order2 = order1
+		}
+	}
+	sb.WriteFile("m/1_a.sql", old)
 	if r := sb.Run("migrate", "hash", "--dir", "file://m"); r.Code != 0 {
 		return fmt.Errorf("harness: %v", r)
 	}
-	r1 := sb.Run("migrate", "apply", "--dir", "file://m", "--url", url, "--tx-mode", "none")
+	r1 := sb.Run(append([]string{"migrate", "apply", "--dir", "file://m", "--url", url, "--tx-mode", "none"}, order1...)...)
 	if r1.Code == 0 {
 		return fmt.Errorf("first attempt should fail: %v", r1)
 	}
@@ -284,13 +303,32 @@ func checkCLI(c Case) error {
 	if r := sb.Run("migrate", "hash", "--dir", "file://m"); r.Code != 0 {
 		return fmt.Errorf("harness: %v", r)
 	}
-	r2 := sb.Run("migrate", "apply", "--dir", "file://m", "--url", url, "--tx-mode", "none")
+	if c.OutOfOrder == 2 {
+		sb.WriteFile("m/3_c.sql", "INSERT INTO journal (id) VALUES (999);\n")
+		if r := sb.Run("migrate", "hash", "--dir", "file://m"); r.Code != 0 {
+			return fmt.Errorf("harness: %v", r)
+		}
+	}
+	r2 := sb.Run(append([]string{"migrate", "apply", "--dir", "file://m", "--url", url, "--tx-mode", "none"}, order2...)...)
 	after, ids2, err := readRevs(sb.Path("db.sqlite"))
 	if err != nil {
 		return fmt.Errorf("harness: %v", err)
 	}
 	if strings.Contains(r2.Stderr, "panic:") || strings.Contains(r2.Stderr, "goroutine ") || r2.Code == 2 && strings.Contains(r2.Stderr, "runtime error") {
 		return fmt.Errorf("CLI crashed: %v", r2)
+	}
+	if c.OutOfOrder == 2 {
+		// a half-applied file below the newest revision, met by a linear run: refused as it stands
+		if r2.Code == 0 {
+			return fmt.Errorf("a file that a non-linear run left half applied lies below the newest revision; the next (linear) run must refuse, it succeeded: %v", r2)
+		}
+		if !reflect.DeepEqual(ids, ids2) {
+			return fmt.Errorf("the run was refused but statements were executed: journal %v -> %v\n%v", ids, ids2, r2)
+		}
+		if !reflect.DeepEqual(before, after) {
+			return fmt.Errorf("the run was refused but the stored revisions changed:\n before %+v\n after  %+v", before, after)
+		}
+		return nil
 	}
 	if c.prefixUnchanged() {
 		if r2.Code != 0 {
